@@ -1,3 +1,988 @@
-//! C24 — not built yet.
-pub const BUILT: bool = false;
-pub fn run(_rep: &mut vx::Report) {}
+//! C24 — embedded raster images decode to the pixels that were supplied.
+//!
+//! Space (all enumerated, nothing sampled):
+//!  * `png`: PNG files written by `refpdf::pngenc` — the 15 valid colour-type/bit-depth
+//!    pairs × transparency/palette variant × interlace 0/1 × size menu × row-filter choice
+//!    (types 0–4 fixed, and a per-row cycle) × 4 pixel patterns, and — as bounded
+//!    deviations — IDAT splitting, zlib level and ancillary chunks.
+//!  * `raw`: buffers through `Image::from_raw_data` (grey/RGB at 1,2,4,8,16 bits),
+//!    `from_gray_data`, `from_rgba_data` × sizes × patterns.
+//!  * `multi`: two images on one page or on two pages (all ordered pairs from a menu):
+//!    each XObject must carry its own pixels and its own soft mask.
+//! Every image goes Image::from_* → Page::add_image + draw_image → Document::to_bytes
+//! (default configuration). The file is read back with `refpdf::file`, the XObject (+ /SMask
+//! or /Mask) decoded with `refpdf::filters` and interpreted per ISO 32000-1 §8.9.5
+//! (`refpdf::pngenc::interpret_image`), and compared in RGBA with what the third-party `png`
+//! crate decodes from the same PNG (for raw buffers: with the supplied samples).
+//! Secondary: the library's own reader (`ImageExtractor::extract_all_in_memory`) must see the
+//! same pixels in the written XObject as the reference interpreter does.
+use oxidize_pdf::{ColorSpace as ImgCs, Document, Image, Page};
+use refpdf::file::PdfFile;
+use refpdf::pngenc::{self, PngSpec, Rgba, RowFilter, Trns, XImage};
+use refpdf::syntax::{Dict, Obj};
+use serde_json::json;
+use vx::{Ctx, Explore, Report};
+
+pub const BUILT: bool = true;
+
+/// Tallies for the evidence notes, per *distinct input* (the explorer re-runs some paths, and
+/// different choices can produce the same file; keyed by input hash so the numbers are fixed).
+mod tally {
+    use std::collections::HashMap;
+    use std::sync::Mutex;
+    pub const PNG_OK: u8 = 0;
+    pub const PNG_REJECTED: u8 = 1;
+    pub const PNG_WRONG: u8 = 2;
+    pub const RAW_OK: u8 = 3;
+    pub const RAW_BAD: u8 = 4;
+    static SEEN: Mutex<Option<HashMap<u64, u8>>> = Mutex::new(None);
+    pub fn record(input: u64, status: u8) {
+        SEEN.lock().unwrap().get_or_insert_with(HashMap::new).insert(input, status);
+    }
+    pub fn count(status: u8) -> u64 {
+        SEEN.lock().unwrap().as_ref().map(|m| m.values().filter(|s| **s == status).count() as u64).unwrap_or(0)
+    }
+}
+
+/// Optional phase timing (set C24_PROF=1): accumulated thread time per phase, printed at the end.
+mod prof {
+    use std::sync::atomic::{AtomicU64, Ordering};
+    pub static T: [AtomicU64; 8] = [const { AtomicU64::new(0) }; 8];
+    pub const NAMES: [&str; 8] = ["encode-png", "png-crate", "lib-import", "lib-write", "ref-read", "lib-extract", "compare", "other"];
+    pub fn on() -> bool {
+        static ON: std::sync::OnceLock<bool> = std::sync::OnceLock::new();
+        *ON.get_or_init(|| std::env::var_os("C24_PROF").is_some())
+    }
+    pub fn time<T>(phase: usize, f: impl FnOnce() -> T) -> T {
+        if !on() {
+            return f();
+        }
+        let t0 = std::time::Instant::now();
+        let r = f();
+        T[phase].fetch_add(t0.elapsed().as_nanos() as u64, Ordering::Relaxed);
+        r
+    }
+    pub fn report() {
+        if on() {
+            for (n, t) in NAMES.iter().zip(T.iter()) {
+                eprintln!("[C24 prof] {n:12} {:8.1} ms", t.load(Ordering::Relaxed) as f64 / 1e6);
+            }
+        }
+    }
+}
+
+const SIZES_QUICK: [(u32, u32); 6] = [(1, 1), (1, 2), (3, 1), (7, 3), (9, 2), (8, 8)];
+const SIZES_THOROUGH: [(u32, u32); 12] =
+    [(1, 1), (1, 2), (3, 1), (7, 3), (9, 2), (8, 8), (2, 2), (4, 4), (5, 9), (17, 5), (33, 2), (16, 16)];
+const PATTERNS: [&str; 4] = ["gradient", "extremes", "scramble", "paeth-ties"];
+
+fn mix(mut x: u64) -> u64 {
+    x ^= x >> 33;
+    x = x.wrapping_mul(0xff51_afd7_ed55_8ccd);
+    x ^= x >> 33;
+    x = x.wrapping_mul(0xc4ce_b9fe_1a85_ec53);
+    x ^ (x >> 33)
+}
+
+/// Deterministic sample patterns; `lim` = number of admissible sample values.
+///  gradient   – runs from 0 at the first sample to lim−1 at the last
+///  extremes   – checkerboard of 0 and lim−1 (Average-filter carry, all-ones bytes)
+///  scramble   – a fixed bit-mixing function of (x, y, channel, depth)
+///  paeth-ties – 2×2 blocks in which the Paeth distances tie (pa=pb=pc and pb=pc<pa), so
+///               that the tie-break order a, b, c decides the reconstructed byte
+fn pattern_samples(pattern: usize, w: u32, h: u32, ch: usize, lim: u64, depth: u8) -> Vec<u16> {
+    let (w, h, chn) = (w as u64, h as u64, ch as u64);
+    let span = ((w - 1) * 3 + (h - 1) * 5 + (chn - 1) * 7).max(1);
+    let mut out = Vec::with_capacity((w * h * chn) as usize);
+    for y in 0..h {
+        for x in 0..w {
+            for c in 0..chn {
+                let v = match pattern {
+                    0 => (x * 3 + y * 5 + c * 7) * (lim - 1) / span,
+                    1 => {
+                        if (x + y + c) % 2 == 0 { 0 } else { lim - 1 }
+                    }
+                    2 => mix(x * 1_000_003 + y * 10_007 + c * 101 + depth as u64 * 7 + lim) % lim,
+                    _ => {
+                        let base = if y % 2 == 0 { [2u64, 3, 2, 0][(x % 4) as usize] } else { [0u64, 9, 3, 7][(x % 4) as usize] };
+                        let v8 = base + 120 + c * 40; // ≤ 249: the tie relations are translation invariant
+                        match depth {
+                            16 => v8 * 257, // both bytes of the sample carry the tie pattern
+                            8 => v8,
+                            _ => v8 % lim,
+                        }
+                    }
+                };
+                out.push((v % lim.max(1)) as u16);
+            }
+        }
+    }
+    out
+}
+
+#[derive(Clone, Copy, Debug, PartialEq)]
+enum TrnsVar {
+    None,
+    /// grey / RGB colour key, or a palette alpha table as long as the palette
+    Full,
+    /// palette alpha table covering only the first half of the palette
+    Short,
+}
+
+#[derive(Clone, Debug)]
+struct PngCase {
+    spec: PngSpec,
+    label: String,
+}
+
+#[allow(clippy::too_many_arguments)]
+fn build_png(ct: u8, depth: u8, short_palette: bool, trns: TrnsVar, interlace: bool, w: u32, h: u32, filter: RowFilter, pattern: usize) -> PngCase {
+    let ch = pngenc::channels(ct);
+    let palette: Vec<[u8; 3]> = if ct == 3 {
+        let full = 1usize << depth;
+        let n = if short_palette { (full * 3 / 4).max(1) } else { full };
+        (0..n).map(|i| [(i * 37 + 11) as u8, (i * 101 + 3) as u8, 255u8.wrapping_sub((i * 13) as u8)]).collect()
+    } else {
+        vec![]
+    };
+    let lim: u64 = if ct == 3 { palette.len() as u64 } else if depth == 16 { 65536 } else { 1u64 << depth };
+    let mut samples = pattern_samples(pattern, w, h, ch, lim, depth);
+    let npx = (w * h) as usize;
+    let trns_v = match (trns, ct) {
+        (TrnsVar::None, _) | (_, 4) | (_, 6) => None,
+        (_, 0) | (_, 2) => {
+            // key = colour of pixel 0; pixel 1 = near miss (last channel differs in its lowest
+            // bit); the last pixel repeats the key colour
+            let key: Vec<u16> = samples[..ch].to_vec();
+            if npx >= 2 {
+                for c in 0..ch {
+                    samples[ch + c] = key[c];
+                }
+                samples[2 * ch - 1] ^= 1;
+            }
+            if npx >= 3 {
+                for c in 0..ch {
+                    samples[(npx - 1) * ch + c] = key[c];
+                }
+            }
+            Some(if ct == 0 { Trns::Gray(key[0]) } else { Trns::Rgb(key[0], key[1], key[2]) })
+        }
+        (v, _) => {
+            let n = if v == TrnsVar::Short { palette.len().div_ceil(2) } else { palette.len() };
+            Some(Trns::Palette((0..n).map(|i| (i * 85) as u8).collect()))
+        }
+    };
+    let label = format!(
+        "ct{ct}/{depth}bit {w}x{h} {}{}{} filter={filter:?} pattern={}",
+        if interlace { "adam7 " } else { "" },
+        if ct == 3 { format!("plte={} ", palette.len()) } else { String::new() },
+        match &trns_v {
+            None => "no-tRNS".to_string(),
+            Some(Trns::Palette(t)) => format!("tRNS[{}]", t.len()),
+            Some(t) => format!("{t:?}"),
+        },
+        PATTERNS[pattern]
+    );
+    PngCase {
+        spec: PngSpec { width: w, height: h, color_type: ct, bit_depth: depth, interlace, palette, trns: trns_v, filter, samples, idat_chunk: 0, level: 6, ancillary: false },
+        label,
+    }
+}
+
+// ------------------------------------------------------------------------------------
+// reading the written document back (independent of the library)
+// ------------------------------------------------------------------------------------
+
+struct Located {
+    dict: Dict,
+    data: Vec<u8>,
+    /// /SMask stream: resolved dictionary + decoded data
+    smask: Option<(Dict, Vec<u8>)>,
+    /// /Mask: colour-key array or stencil stream (dictionary + decoded data)
+    mask_key: Option<Vec<Obj>>,
+    mask_stencil: Option<(Dict, Vec<u8>)>,
+    filter: String,
+    painted: bool,
+}
+
+fn resolved_image_dict(f: &PdfFile, d: &Dict) -> Dict {
+    let mut out = Dict::new();
+    for k in ["Type", "Subtype", "Width", "Height", "BitsPerComponent", "ColorSpace", "CS", "Decode", "D", "ImageMask", "Matte", "Interpolate"] {
+        if let Some(v) = d.get(k) {
+            out.set(k, f.deep_resolve(v, 3));
+        }
+    }
+    out
+}
+
+fn filter_name(d: &Dict) -> String {
+    match d.get("Filter") {
+        None => "none".into(),
+        Some(Obj::Name(n)) => String::from_utf8_lossy(n).into_owned(),
+        Some(Obj::Array(a)) => a.iter().filter_map(|o| o.as_name()).map(|n| String::from_utf8_lossy(n).into_owned()).collect::<Vec<_>>().join("+"),
+        Some(_) => "?".into(),
+    }
+}
+
+/// Find image XObject `name` in the resources of page `page_idx`; decode its data and its masks.
+fn locate(f: &PdfFile, page_idx: usize, name: &str) -> Result<Located, (String, String)> {
+    let e = |k: &str, d: String| (format!("C24/{k}"), d);
+    let pages = f.pages().map_err(|m| e("written-file-has-no-page-tree", m))?;
+    let page = pages.get(page_idx).ok_or_else(|| e("written-file-lacks-the-page", format!("{} pages, wanted index {page_idx}", pages.len())))?;
+    let res = f.resolve_opt(page.resources());
+    let xo = f.dget(&res, "XObject");
+    let im = f.dget(&xo, name);
+    let st = im.as_stream().ok_or_else(|| e("image-xobject-missing", format!("/Resources /XObject /{name} is {}", im.type_name())))?;
+    if st.dict.get("Subtype").and_then(|o| o.as_name()) != Some(b"Image") {
+        return Err(e("image-xobject-missing", format!("/{name} is not /Subtype /Image")));
+    }
+    let data = f.stream_data(st).map_err(|m| e("image-stream-undecodable", format!("/{name}: {m}")))?;
+    let mut loc = Located {
+        dict: resolved_image_dict(f, &st.dict),
+        data,
+        smask: None,
+        mask_key: None,
+        mask_stencil: None,
+        filter: filter_name(&st.dict),
+        painted: false,
+    };
+    match st.dict.get("SMask").map(|o| f.resolve(o)) {
+        None | Some(Obj::Null) => {}
+        Some(Obj::Stream(s)) => {
+            let d = f.stream_data(&s).map_err(|m| e("smask-stream-undecodable", format!("/{name} /SMask: {m}")))?;
+            loc.smask = Some((resolved_image_dict(f, &s.dict), d));
+        }
+        Some(o) => return Err(e("smask-not-a-stream", format!("/{name} /SMask is {}", o.type_name()))),
+    }
+    match st.dict.get("Mask").map(|o| f.resolve(o)) {
+        None | Some(Obj::Null) => {}
+        Some(Obj::Array(a)) => loc.mask_key = Some(a.iter().map(|o| f.resolve(o)).collect()),
+        Some(Obj::Stream(s)) => {
+            let d = f.stream_data(&s).map_err(|m| e("mask-stream-undecodable", format!("/{name} /Mask: {m}")))?;
+            loc.mask_stencil = Some((resolved_image_dict(f, &s.dict), d));
+        }
+        Some(o) => return Err(e("mask-of-unknown-form", format!("/{name} /Mask is {}", o.type_name()))),
+    }
+    // is the image painted? "/name Do" in the page content
+    if let Ok(content) = f.page_content(page) {
+        let pat = format!("/{name} Do");
+        loc.painted = content.windows(pat.len()).any(|w| w == pat.as_bytes());
+    }
+    Ok(loc)
+}
+
+/// The embedded image as pixels: colour (depth 8 or 16) and alpha (depth 8 or 16).
+struct Pixels {
+    width: u32,
+    height: u32,
+    colour_depth: u8,
+    alpha_depth: u8,
+    px: Vec<[u16; 4]>,
+    /// e.g. "DeviceRGB/8+SMask/8"
+    repr: String,
+    has_alpha_plane: bool,
+    surplus: usize,
+    bpc: u8,
+    ncomp: usize,
+    indexed: bool,
+}
+
+fn interpret(f: &PdfFile, loc: &Located) -> Result<Pixels, (String, String)> {
+    let e = |k: &str, d: String| (format!("C24/{k}"), d);
+    let lookup = |o: &Obj| o.as_stream().and_then(|s| f.stream_data(s).ok());
+    let x: XImage = pngenc::interpret_image(&loc.dict, &loc.data, &lookup).map_err(|m| e("image-samples-uninterpretable", m))?;
+    let n = x.rgb.len();
+    let mut repr = x.repr.clone();
+    let mut surplus = x.surplus_bytes;
+    let (alpha_depth, alpha): (u8, Option<Vec<u16>>) = if let Some((sd, sdata)) = &loc.smask {
+        let (sw, sh, depth, a) = pngenc::interpret_smask(sd, sdata).map_err(|m| e("smask-uninterpretable", m))?;
+        if (sw, sh) != (x.width, x.height) {
+            return Err(e("smask-dimensions-differ-from-image", format!("image {}x{}, /SMask {sw}x{sh}", x.width, x.height)));
+        }
+        let need = (sw as usize * depth as usize).div_ceil(8) * sh as usize;
+        surplus += sdata.len().saturating_sub(need);
+        repr.push_str(&format!("+SMask/{depth}"));
+        (depth, Some(a))
+    } else if let Some(key) = &loc.mask_key {
+        let a = pngenc::colour_key_alpha(&x, key).map_err(|m| e("colour-key-mask-uninterpretable", m))?;
+        repr.push_str("+ColourKey");
+        (8, Some(a))
+    } else if let Some((md, mdata)) = &loc.mask_stencil {
+        let (mw, mh, a) = pngenc::stencil_alpha(md, mdata).map_err(|m| e("stencil-mask-uninterpretable", m))?;
+        if (mw, mh) != (x.width, x.height) {
+            return Err(e("stencil-mask-dimensions-differ-from-image", format!("image {}x{}, /Mask {mw}x{mh}", x.width, x.height)));
+        }
+        repr.push_str("+Stencil");
+        (8, Some(a))
+    } else {
+        (8, None)
+    };
+    let has_alpha_plane = alpha.is_some();
+    let alpha = alpha.unwrap_or_else(|| vec![255; n]);
+    let px = x.rgb.iter().zip(alpha.iter()).map(|(c, a)| [c[0], c[1], c[2], *a]).collect();
+    Ok(Pixels {
+        width: x.width,
+        height: x.height,
+        colour_depth: x.colour_depth,
+        alpha_depth,
+        px,
+        repr: format!("{repr} {}", loc.filter),
+        has_alpha_plane,
+        surplus,
+        bpc: x.bpc,
+        ncomp: x.ncomp,
+        indexed: x.repr.starts_with("Indexed"),
+    })
+}
+
+/// One channel: does the embedded value represent the wanted value? Equal depths: equal
+/// values. 16-bit source stored in 8 bits: either usual reduction. 8-bit source stored in
+/// 16 bits: the exact replication v·257.
+fn chan_ok(want: u16, wd: u8, got: u16, gd: u8) -> bool {
+    match (wd, gd) {
+        (16, 8) => got == want >> 8 || got as u32 == (want as u32 * 255 + 32767) / 65535,
+        (8, 16) => got as u32 == want as u32 * 257,
+        _ => want == got,
+    }
+}
+
+#[derive(Default, Debug)]
+struct Diff {
+    colour_bad: usize,
+    alpha_bad: usize,
+    first: Option<String>,
+    invisible_skipped: usize,
+}
+
+fn compare(want: &Rgba, got: &Pixels) -> Result<Diff, String> {
+    if (want.width, want.height) != (got.width, got.height) {
+        return Err(format!("source {}x{}, embedded {}x{}", want.width, want.height, got.width, got.height));
+    }
+    let mut d = Diff::default();
+    for (i, (w, g)) in want.px.iter().zip(got.px.iter()).enumerate() {
+        let a_ok = chan_ok(w[3], want.depth, g[3], got.alpha_depth);
+        // colour under a fully transparent pixel cannot be observed: not compared
+        let c_ok = if w[3] == 0 && a_ok {
+            d.invisible_skipped += 1;
+            true
+        } else {
+            (0..3).all(|c| chan_ok(w[c], want.depth, g[c], got.colour_depth))
+        };
+        if !a_ok {
+            d.alpha_bad += 1;
+        }
+        if !c_ok {
+            d.colour_bad += 1;
+        }
+        if (!a_ok || !c_ok) && d.first.is_none() {
+            d.first = Some(format!("pixel {} (x={}, y={}): want RGBA{:?}@{}bit got RGB{:?}@{}bit A{}@{}bit", i, i as u32 % want.width, i as u32 / want.width, w, want.depth, &g[..3], got.colour_depth, g[3], got.alpha_depth));
+        }
+    }
+    Ok(d)
+}
+
+// ------------------------------------------------------------------------------------
+// through the library
+// ------------------------------------------------------------------------------------
+
+enum LibOut {
+    Rejected(String),
+    Panicked(String),
+    WriteFailed(String),
+    Written(Vec<u8>),
+}
+
+fn write_doc(images: Vec<(String, usize, Image)>, n_pages: usize) -> Result<Vec<u8>, String> {
+    let mut pages: Vec<Page> = (0..n_pages).map(|_| Page::new(300.0, 300.0)).collect();
+    for (k, (name, page, img)) in images.into_iter().enumerate() {
+        pages[page].add_image(name.clone(), img);
+        pages[page].draw_image(&name, 10.0 + 60.0 * k as f64, 20.0, 50.0, 40.0).map_err(|e| format!("draw_image: {e}"))?;
+    }
+    let mut doc = Document::new();
+    for p in pages {
+        doc.add_page(p);
+    }
+    doc.to_bytes().map_err(|e| format!("to_bytes: {e}"))
+}
+
+fn through_library(make: impl FnOnce() -> Result<Image, String>) -> LibOut {
+    let img = match prof::time(2, || vx::guard(make)) {
+        Err(p) => return LibOut::Panicked(p),
+        Ok(Err(e)) => return LibOut::Rejected(e),
+        Ok(Ok(i)) => i,
+    };
+    match prof::time(3, || vx::guard(move || write_doc(vec![("Im1".to_string(), 0, img)], 1))) {
+        Err(p) => LibOut::Panicked(p),
+        Ok(Err(e)) => LibOut::WriteFailed(e),
+        Ok(Ok(b)) => LibOut::Written(b),
+    }
+}
+
+/// The library's own reader on the written file: every image it extracts, as RGBA.
+fn extract_with_library(pdf: &[u8]) -> Result<Vec<Rgba>, String> {
+    use oxidize_pdf::operations::{ExtractImagesOptions, ImageExtractionLimits, ImageExtractor, ImagePreprocessingOptions};
+    use oxidize_pdf::parser::{PdfDocument, PdfReader};
+    let pdf = pdf.to_vec();
+    let r = vx::guard(move || -> Result<Vec<Rgba>, String> {
+        let reader = PdfReader::new(std::io::Cursor::new(pdf)).map_err(|e| format!("PdfReader::new: {e}"))?;
+        let doc = PdfDocument::new(reader);
+        // the default options post-process for OCR (rotate, contrast, denoise, upscale): all off
+        let preprocessing = ImagePreprocessingOptions {
+            auto_correct_rotation: false,
+            enhance_contrast: false,
+            denoise: false,
+            upscale_small_images: false,
+            force_grayscale: false,
+            ..Default::default()
+        };
+        let opts = ExtractImagesOptions { min_size: None, extract_inline: false, create_dir: false, preprocessing, ..Default::default() };
+        let mut ex = ImageExtractor::new(doc, opts);
+        let imgs = ex.extract_all_in_memory(ImageExtractionLimits::default()).map_err(|e| format!("extract_all_in_memory: {e}"))?;
+        let mut out = Vec::new();
+        for i in imgs {
+            let px = pngenc::decode_with_png_crate(&i.data).map_err(|e| format!("extracted image {} is not a decodable PNG: {e}", i.image_index))?;
+            if (px.width, px.height) != (i.width, i.height) {
+                return Err(format!("extracted image reports {}x{} but its PNG is {}x{}", i.width, i.height, px.width, px.height));
+            }
+            out.push(px);
+        }
+        Ok(out)
+    });
+    match r {
+        Ok(v) => v,
+        Err(p) => Err(format!("panic: {p}")),
+    }
+}
+
+/// Does the library reader's picture equal the reference interpreter's picture of the same XObject?
+fn same_picture(lib: &Rgba, mine: &Pixels) -> bool {
+    (lib.width, lib.height) == (mine.width, mine.height)
+        && lib.px.iter().zip(mine.px.iter()).all(|(l, m)| {
+            (0..3).all(|c| chan_ok(l[c], lib.depth, m[c], mine.colour_depth) || chan_ok(m[c], mine.colour_depth, l[c], lib.depth))
+                && (chan_ok(l[3], lib.depth, m[3], mine.alpha_depth) || chan_ok(m[3], mine.alpha_depth, l[3], lib.depth))
+        })
+}
+
+/// Known defect of the library's extractor (KF-C24-8): it re-packs the samples of an image
+/// with width × components bytes per row whatever /BitsPerComponent says, so any image whose
+/// real row length differs (BitsPerComponent ≠ 8, not Indexed) comes out undecodable or garbled.
+fn extractor_row_stride_defect_applies(m: &Pixels) -> bool {
+    let samples = m.width as usize * m.ncomp;
+    m.bpc != 8 && !m.indexed && samples != (samples * m.bpc as usize).div_ceil(8)
+}
+
+fn reader_cross_check(c: &mut Ctx, label: &str, pdf: &[u8], mine: &[&Pixels]) {
+    let known = mine.iter().any(|m| extractor_row_stride_defect_applies(m));
+    const KNOWN_KEY: &str = "C24/library-reader-repacks-non-8-bit-image-with-8-bit-row-length";
+    match prof::time(5, || extract_with_library(pdf)) {
+        Err(e) => {
+            // KF-C24-9: the size check before that re-packing counts one byte per sample for every
+            // depth up to 8, so images below 8 bits are refused as "too small"
+            let too_small = mine.iter().any(|m| {
+                m.bpc < 8 && !m.indexed && e.contains(&format!("Image data too small: expected {},", m.width as usize * m.height as usize * m.ncomp))
+            });
+            let key = if known && e.contains("is not a decodable PNG") {
+                KNOWN_KEY
+            } else if too_small {
+                "C24/library-reader-refuses-image-below-8-bits-as-too-small"
+            } else {
+                "C24/library-reader-cannot-extract-written-image"
+            };
+            c.fail(key, format!("{label}: {e}"))
+        }
+        Ok(imgs) => {
+            if imgs.len() != mine.len() {
+                c.fail("C24/library-reader-extracts-wrong-number-of-images", format!("{label}: {} extracted, {} embedded", imgs.len(), mine.len()));
+                return;
+            }
+            // extraction order follows a hash map: match as sets
+            let mut left: Vec<&Rgba> = imgs.iter().collect();
+            for m in mine {
+                match left.iter().position(|l| same_picture(l, m)) {
+                    Some(i) => {
+                        left.swap_remove(i);
+                    }
+                    None => {
+                        let l = left[0];
+                        let first = l.px.iter().zip(m.px.iter()).position(|(a, b)| {
+                            !((0..3).all(|k| chan_ok(a[k], l.depth, b[k], m.colour_depth)) && chan_ok(a[3], l.depth, b[3], m.alpha_depth))
+                        });
+                        let key = if extractor_row_stride_defect_applies(m) { KNOWN_KEY } else { "C24/library-reader-sees-other-pixels-than-the-xobject-holds" };
+                        c.fail(
+                            key,
+                            format!("{label}: XObject {} is {}x{}; extracted {}x{} depth {}; first differing pixel {:?}: xobject {:?} extracted {:?}",
+                                    m.repr, m.width, m.height, l.width, l.height, l.depth, first,
+                                    first.map(|i| m.px[i]), first.map(|i| l.px[i])),
+                        );
+                        return;
+                    }
+                }
+            }
+        }
+    }
+}
+
+// ------------------------------------------------------------------------------------
+// known defective signatures of the PNG importer (see /verif/known_findings.d/C24.json)
+// ------------------------------------------------------------------------------------
+
+/// Row length the importer assumes: width × ceil(depth × channels / 8), with 3 channels for
+/// palette images. When this exceeds the real row length it reports "Insufficient PNG image data".
+fn importer_row_estimate_exceeds(spec: &PngSpec) -> bool {
+    let ch_lib = match spec.color_type {
+        0 => 1,
+        2 | 3 => 3,
+        4 => 2,
+        _ => 4,
+    };
+    let est = spec.width as usize * (spec.bit_depth as usize * ch_lib).div_ceil(8);
+    let real = (spec.width as usize * spec.bit_depth as usize * pngenc::channels(spec.color_type)).div_ceil(8);
+    est > real
+}
+
+fn classify_rejection(spec: &PngSpec, msg: &str) -> String {
+    if spec.interlace && msg.contains("Interlaced PNG not yet supported") {
+        return "C24/interlaced-png-rejected".into();
+    }
+    if !spec.interlace && msg.contains("Insufficient PNG image data") && importer_row_estimate_exceeds(spec) {
+        if spec.color_type == 0 && spec.bit_depth < 8 {
+            return "C24/grey-png-below-8-bits-rejected-as-insufficient-data".into();
+        }
+        if spec.color_type == 3 {
+            return "C24/palette-png-rejected-as-insufficient-data".into();
+        }
+    }
+    "C24/valid-png-rejected".into()
+}
+
+/// The scanline bytes of a 16-bit image split the way 8-bit samples of the same colour type
+/// would be split: (colour plane bytes, alpha plane bytes).
+fn split_as_8bit(spec: &PngSpec) -> (Vec<u8>, Option<Vec<u8>>) {
+    let bytes: Vec<u8> = pngenc::packed_rows(spec).concat();
+    match spec.color_type {
+        4 => (bytes.iter().step_by(2).copied().collect(), Some(bytes.iter().skip(1).step_by(2).copied().collect())),
+        6 => (
+            bytes.iter().enumerate().filter(|(i, _)| i % 4 != 3).map(|(_, b)| *b).collect(),
+            Some(bytes.iter().skip(3).step_by(4).copied().collect()),
+        ),
+        _ => (bytes, None),
+    }
+}
+
+fn dict_int(d: &Dict, k: &str) -> i64 {
+    d.get(k).and_then(|o| o.as_int()).unwrap_or(-1)
+}
+fn dict_name(d: &Dict, k: &str) -> String {
+    d.get(k).and_then(|o| o.as_name()).map(|n| String::from_utf8_lossy(n).into_owned()).unwrap_or_default()
+}
+
+/// Recognise the exact shape of the known importer defects in the written XObject.
+fn known_signature(spec: &PngSpec, loc: &Located) -> Option<&'static str> {
+    if spec.interlace || dict_int(&loc.dict, "BitsPerComponent") != 8 || loc.mask_key.is_some() || loc.mask_stencil.is_some() {
+        return None;
+    }
+    let cs = dict_name(&loc.dict, "ColorSpace");
+    let plain = loc.smask.is_none();
+    let rows: Vec<u8> = pngenc::packed_rows(spec).concat();
+    match (spec.color_type, spec.bit_depth) {
+        (0, 1 | 2 | 4) if spec.width == 1 && plain && cs == "DeviceGray" && loc.data == rows => Some("C24/grey-png-below-8-bits-packed-bytes-declared-8-bit"),
+        (3, 1 | 2) if spec.width == 1 && plain && cs == "DeviceRGB" && loc.data == rows => Some("C24/palette-png-index-bytes-declared-devicergb"),
+        (_, 16) => {
+            let (colour, alpha) = split_as_8bit(spec);
+            let cs_ok = cs == if spec.color_type == 0 || spec.color_type == 4 { "DeviceGray" } else { "DeviceRGB" };
+            let alpha_ok = match (&alpha, &loc.smask) {
+                (None, None) => true,
+                (Some(a), Some((sd, sdata))) => sdata == a && dict_int(sd, "BitsPerComponent") == 8,
+                _ => false,
+            };
+            if cs_ok && alpha_ok && loc.data == colour { Some("C24/16-bit-png-bytes-split-as-8-bit-samples") } else { None }
+        }
+        _ => None,
+    }
+}
+
+// ------------------------------------------------------------------------------------
+// sections
+// ------------------------------------------------------------------------------------
+
+struct Verdict {
+    class: String,
+    compared: bool,
+    ok: bool,
+}
+
+/// Common tail: written file → locate → interpret → compare with `want`. `spec` is present
+/// for PNG inputs (known-signature recognition).
+fn judge_written(c: &mut Ctx, label: &str, pdf: &[u8], want: &Rgba, spec: Option<&PngSpec>, cross_check_reader: bool) -> Verdict {
+    let f = match prof::time(4, || PdfFile::parse(pdf)) {
+        Ok(f) => f,
+        Err(e) => {
+            c.fail("C24/written-file-unreadable-by-reference-reader", format!("{label}: {e}"));
+            return Verdict { class: "unreadable".into(), compared: false, ok: false };
+        }
+    };
+    let loc = match prof::time(4, || locate(&f, 0, "Im1")) {
+        Ok(l) => l,
+        Err((k, d)) => {
+            c.fail(k.clone(), format!("{label}: {d}"));
+            return Verdict { class: k, compared: false, ok: false };
+        }
+    };
+    if !loc.painted {
+        c.fail("C24/image-not-painted-by-page-content", format!("{label}: no '/Im1 Do' in the page content"));
+    }
+    let sig = spec.and_then(|s| known_signature(s, &loc));
+    let px = match interpret(&f, &loc) {
+        Ok(p) => p,
+        Err((k, d)) => {
+            let key = sig.map(|s| s.to_string()).unwrap_or(k);
+            c.fail(key.clone(), format!("{label}: {d} [{} bytes of sample data, /ColorSpace {} /BitsPerComponent {}]", loc.data.len(), dict_name(&loc.dict, "ColorSpace"), dict_int(&loc.dict, "BitsPerComponent")));
+            return Verdict { class: key, compared: false, ok: false };
+        }
+    };
+    let class;
+    let mut ok = false;
+    match compare(want, &px) {
+        Err(dim) => {
+            c.fail("C24/embedded-image-dimensions-differ", format!("{label}: {dim}"));
+            class = "dimensions".to_string();
+        }
+        Ok(d) if d.colour_bad == 0 && d.alpha_bad == 0 => {
+            class = format!("ok {}{}", px.repr, if px.surplus > 0 { " surplus-data" } else { "" });
+            ok = true;
+        }
+        Ok(d) => {
+            let trns_ignored = spec.map(|s| s.trns.is_some() && !s.interlace && s.bit_depth == 8).unwrap_or(false)
+                && d.colour_bad == 0
+                && !px.has_alpha_plane
+                && want.px.iter().zip(px.px.iter()).all(|(w, g)| g[3] == 255 && (w[3] == 255 || w[3] == 0));
+            let key = if let Some(s) = sig {
+                s.to_string()
+            } else if trns_ignored {
+                "C24/trns-colour-key-ignored-no-mask-written".to_string()
+            } else if d.colour_bad > 0 && d.alpha_bad > 0 {
+                "C24/embedded-colour-and-alpha-differ".to_string()
+            } else if d.colour_bad > 0 {
+                "C24/embedded-colour-differs".to_string()
+            } else {
+                "C24/embedded-alpha-differs".to_string()
+            };
+            c.fail(key.clone(), format!("{label}: {} as {}: {} colour / {} alpha pixels of {} differ; {}", "image", px.repr, d.colour_bad, d.alpha_bad, want.px.len(), d.first.unwrap_or_default()));
+            class = key;
+        }
+    }
+    if cross_check_reader {
+        reader_cross_check(c, label, pdf, &[&px]);
+    }
+    Verdict { class, compared: true, ok }
+}
+
+fn png_section(rep: &mut Report, thorough: bool) {
+    let sizes: &[(u32, u32)] = if thorough { &SIZES_THOROUGH } else { &SIZES_QUICK };
+    let cfg = if thorough { Explore::full() } else { Explore::dev(1) };
+    rep.explore("png", cfg, |c: &mut Ctx| {
+        let (ct, depth) = *c.pick_from("pair", &pngenc::VALID_PAIRS);
+        let (short_palette, trns) = match ct {
+            0 | 2 => (false, *c.pick_from("trns", &[TrnsVar::None, TrnsVar::Full])),
+            3 => {
+                let sp = c.flag("short-palette");
+                let one_entry = sp && depth == 1;
+                let menu: &[TrnsVar] = if one_entry { &[TrnsVar::None, TrnsVar::Full] } else { &[TrnsVar::None, TrnsVar::Full, TrnsVar::Short] };
+                (sp, *c.pick_from("trns", menu))
+            }
+            _ => (false, TrnsVar::None),
+        };
+        let interlace = c.flag("interlace");
+        let (w, h) = *c.pick_from("size", sizes);
+        let filter = match c.choose("filter", 6) {
+            5 => RowFilter::Cycle(1),
+            f => RowFilter::Fixed(f as u8),
+        };
+        let pattern = c.choose("pattern", 4);
+        let idat = *c.pick_dev("idat-split", &[0usize, 1, 7]);
+        let level = *c.pick_dev("zlib-level", &[6u32, 0, 9]);
+        let ancillary = c.choose_dev("ancillary-chunks", 2) == 1;
+        let mut case = build_png(ct, depth, short_palette, trns, interlace, w, h, filter, pattern);
+        case.spec.idat_chunk = idat;
+        case.spec.level = level;
+        case.spec.ancillary = ancillary;
+        let label = format!("{} idat={idat} level={level} anc={ancillary}", case.label);
+        let png = prof::time(0, || pngenc::encode(&case.spec));
+        let input_hash = vx::hbytes(&png);
+        c.input(input_hash);
+
+        // the independent decoder, and the specification-derived expectation it was validated with
+        let want = match prof::time(1, || pngenc::decode_with_png_crate(&png)) {
+            Ok(w) => w,
+            Err(e) => {
+                c.fail("C24/check-error-png-crate-rejects-the-generated-png", format!("{label}: {e}"));
+                return;
+            }
+        };
+        if want != pngenc::expected_rgba(&case.spec) {
+            c.fail("C24/check-error-png-crate-and-specification-disagree", label.clone());
+            return;
+        }
+
+        let data = png.clone();
+        let out = through_library(move || Image::from_png_data(data).map_err(|e| e.to_string()));
+        let class = match out {
+            LibOut::Rejected(msg) => {
+                let key = classify_rejection(&case.spec, &msg);
+                c.fail(key.clone(), format!("{label}: Image::from_png_data: {msg}"));
+                tally::record(input_hash, tally::PNG_REJECTED);
+                key
+            }
+            LibOut::Panicked(p) => {
+                c.fail(format!("C24/panic-embedding-png@{}", vx::panic_site(&p)), format!("{label}: {p}"));
+                "panic".into()
+            }
+            LibOut::WriteFailed(e) => {
+                c.fail("C24/document-with-png-image-not-written", format!("{label}: {e}"));
+                "write-failed".into()
+            }
+            LibOut::Written(pdf) => {
+                let v = judge_written(c, &label, &pdf, &want, Some(&case.spec), true);
+                if v.compared {
+                    c.nontrivial();
+                }
+                tally::record(input_hash, if v.ok { tally::PNG_OK } else { tally::PNG_WRONG });
+                v.class
+            }
+        };
+        c.outcome(vx::h64(&(ct, depth, &class)));
+        if c.want_sample() {
+            c.sample(json!({"png": label, "png_bytes": png.len(), "outcome": class}));
+        }
+    });
+}
+
+#[derive(Clone, Copy, Debug, PartialEq)]
+enum RawKind {
+    RawGray(u8),
+    RawRgb(u8),
+    GrayData,
+    RgbaData,
+}
+const RAW_KINDS: [RawKind; 12] = [
+    RawKind::RawGray(8), RawKind::RawGray(16), RawKind::RawGray(1), RawKind::RawGray(2), RawKind::RawGray(4),
+    RawKind::RawRgb(8), RawKind::RawRgb(16), RawKind::RawRgb(1), RawKind::RawRgb(2), RawKind::RawRgb(4),
+    RawKind::GrayData, RawKind::RgbaData,
+];
+
+/// Build the buffer handed to the raw constructor and the pixels it stands for. Buffers for
+/// `from_raw_data` use the PDF sample layout (§8.9.3): rows padded to bytes, MSB first.
+fn build_raw(kind: RawKind, w: u32, h: u32, pattern: usize) -> (Vec<u8>, Rgba) {
+    let (ch, depth) = match kind {
+        RawKind::RawGray(d) => (1usize, d),
+        RawKind::RawRgb(d) => (3, d),
+        RawKind::GrayData => (1, 8),
+        RawKind::RgbaData => (4, 8),
+    };
+    let lim: u64 = if depth == 16 { 65536 } else { 1u64 << depth };
+    let samples = pattern_samples(pattern, w, h, ch, lim, depth);
+    let row = w as usize * ch;
+    let buf: Vec<u8> = samples.chunks(row).flat_map(|r| pngenc::pack_row(r, depth)).collect();
+    let out_depth = if depth == 16 { 16 } else { 8 };
+    let opaque = if depth == 16 { 65535 } else { 255 };
+    let sc = |v: u16| -> u16 { if depth < 8 { (v as u32 * 255 / ((1u32 << depth) - 1)) as u16 } else { v } };
+    let px = samples
+        .chunks(ch)
+        .map(|s| match ch {
+            1 => [sc(s[0]), sc(s[0]), sc(s[0]), opaque],
+            3 => [sc(s[0]), sc(s[1]), sc(s[2]), opaque],
+            _ => [s[0], s[1], s[2], s[3]],
+        })
+        .collect();
+    (buf, Rgba { width: w, height: h, depth: out_depth, px })
+}
+
+fn make_raw_image(kind: RawKind, buf: Vec<u8>, w: u32, h: u32) -> Result<Image, String> {
+    match kind {
+        RawKind::RawGray(d) => Ok(Image::from_raw_data(buf, w, h, ImgCs::DeviceGray, d)),
+        RawKind::RawRgb(d) => Ok(Image::from_raw_data(buf, w, h, ImgCs::DeviceRGB, d)),
+        RawKind::GrayData => Image::from_gray_data(buf, w, h).map_err(|e| e.to_string()),
+        RawKind::RgbaData => Image::from_rgba_data(buf, w, h).map_err(|e| e.to_string()),
+    }
+}
+
+fn raw_section(rep: &mut Report, thorough: bool) {
+    let sizes: &[(u32, u32)] = if thorough { &SIZES_THOROUGH } else { &SIZES_QUICK };
+    rep.explore("raw", Explore::full(), |c: &mut Ctx| {
+        let kind = *c.pick_from("constructor", &RAW_KINDS);
+        let (w, h) = *c.pick_from("size", sizes);
+        let pattern = c.choose("pattern", 4);
+        let (buf, want) = build_raw(kind, w, h, pattern);
+        let label = format!("{kind:?} {w}x{h} pattern={}", PATTERNS[pattern]);
+        let input_hash = vx::h64(&(format!("{kind:?}"), w, h, &buf));
+        c.input(input_hash);
+        let b2 = buf.clone();
+        let class = match through_library(move || make_raw_image(kind, b2, w, h)) {
+            LibOut::Rejected(msg) => {
+                c.fail("C24/valid-raw-buffer-rejected", format!("{label}: {msg}"));
+                "rejected".to_string()
+            }
+            LibOut::Panicked(p) => {
+                c.fail(format!("C24/panic-embedding-raw-buffer@{}", vx::panic_site(&p)), format!("{label}: {p}"));
+                "panic".into()
+            }
+            LibOut::WriteFailed(e) => {
+                c.fail("C24/document-with-raw-image-not-written", format!("{label}: {e}"));
+                "write-failed".into()
+            }
+            LibOut::Written(pdf) => {
+                let v = judge_written(c, &label, &pdf, &want, None, true);
+                if v.compared {
+                    c.nontrivial();
+                }
+                tally::record(input_hash, if v.ok { tally::RAW_OK } else { tally::RAW_BAD });
+                v.class
+            }
+        };
+        c.outcome(vx::h64(&(format!("{kind:?}"), &class)));
+        if c.want_sample() {
+            c.sample(json!({"raw": label, "buffer_bytes": buf.len(), "outcome": class}));
+        }
+    });
+}
+
+/// Menu of small distinct images for the two-image documents: (label, image, wanted pixels).
+fn multi_menu(i: usize) -> (String, Result<Image, String>, Rgba) {
+    let png_case = |ct: u8, w: u32, h: u32, pattern: usize| {
+        let case = build_png(ct, 8, false, TrnsVar::None, false, w, h, RowFilter::Fixed(4), pattern);
+        let png = pngenc::encode(&case.spec);
+        let want = pngenc::expected_rgba(&case.spec);
+        (format!("png {}", case.label), Image::from_png_data(png).map_err(|e| e.to_string()), want)
+    };
+    match i {
+        0 => png_case(0, 7, 3, 0),
+        1 => png_case(2, 3, 1, 2),
+        2 => png_case(4, 9, 2, 2),
+        3 => png_case(6, 7, 3, 0),
+        4 => png_case(6, 7, 3, 2), // same geometry as 3, other pixels and other alpha
+        5 => {
+            let (buf, want) = build_raw(RawKind::RgbaData, 7, 3, 1);
+            ("raw rgba 7x3".into(), make_raw_image(RawKind::RgbaData, buf, 7, 3), want)
+        }
+        _ => {
+            let (buf, want) = build_raw(RawKind::GrayData, 8, 8, 2);
+            ("raw grey 8x8".into(), make_raw_image(RawKind::GrayData, buf, 8, 8), want)
+        }
+    }
+}
+const MULTI_MENU: usize = 7;
+
+fn multi_section(rep: &mut Report) {
+    rep.explore("multi", Explore::full(), |c: &mut Ctx| {
+        let a = c.choose("first", MULTI_MENU);
+        let b = c.choose("second", MULTI_MENU);
+        let two_pages = c.flag("on-two-pages");
+        // names chosen so that sorted order and insertion order differ in half of the cases
+        let swap_names = c.flag("names-reversed");
+        let (na, nb) = if swap_names { ("ImB", "ImA") } else { ("ImA", "ImB") };
+        let (la, ia, wa) = multi_menu(a);
+        let (lb, ib, wb) = multi_menu(b);
+        let label = format!("/{na}={la} ; /{nb}={lb} ; two_pages={two_pages}");
+        c.input(vx::h64(&(a, b, two_pages, swap_names)));
+        c.nontrivial();
+        let (ia, ib) = match (ia, ib) {
+            (Ok(x), Ok(y)) => (x, y),
+            (x, y) => {
+                c.fail("C24/valid-png-rejected", format!("{label}: {:?} {:?}", x.err(), y.err()));
+                return;
+            }
+        };
+        let pb = if two_pages { 1 } else { 0 };
+        let pdf = match vx::guard(move || write_doc(vec![(na.to_string(), 0, ia), (nb.to_string(), pb, ib)], pb + 1)) {
+            Ok(Ok(p)) => p,
+            Ok(Err(e)) => {
+                c.fail("C24/document-with-two-images-not-written", format!("{label}: {e}"));
+                return;
+            }
+            Err(p) => {
+                c.fail(format!("C24/panic-embedding-two-images@{}", vx::panic_site(&p)), format!("{label}: {p}"));
+                return;
+            }
+        };
+        let f = match PdfFile::parse(&pdf) {
+            Ok(f) => f,
+            Err(e) => {
+                c.fail("C24/written-file-unreadable-by-reference-reader", format!("{label}: {e}"));
+                return;
+            }
+        };
+        let mut classes = Vec::new();
+        let mut pixels = Vec::new();
+        for (name, page, want) in [(na, 0usize, &wa), (nb, pb, &wb)] {
+            let r = locate(&f, page, name).and_then(|loc| {
+                if !loc.painted {
+                    return Err(("C24/image-not-painted-by-page-content".to_string(), format!("no '/{name} Do' on page {page}")));
+                }
+                interpret(&f, &loc)
+            });
+            match r {
+                Err((k, d)) => {
+                    c.fail(k.clone(), format!("{label}: /{name}: {d}"));
+                    classes.push(k);
+                }
+                Ok(px) => {
+                    match compare(want, &px) {
+                        Ok(d) if d.colour_bad == 0 && d.alpha_bad == 0 => classes.push(format!("ok {}", px.repr)),
+                        Ok(d) => {
+                            // whose pixels are they?
+                            let other = if name == na { &wb } else { &wa };
+                            let swapped = compare(other, &px).map(|d| d.colour_bad == 0 && d.alpha_bad == 0).unwrap_or(false);
+                            let key = if swapped { "C24/two-images-one-carries-the-others-pixels-or-mask" } else { "C24/two-images-embedded-pixels-differ" };
+                            c.fail(key, format!("{label}: /{name} as {}: {} colour / {} alpha pixels differ; {}", px.repr, d.colour_bad, d.alpha_bad, d.first.unwrap_or_default()));
+                            classes.push(key.to_string());
+                        }
+                        Err(dim) => {
+                            c.fail("C24/embedded-image-dimensions-differ", format!("{label}: /{name}: {dim}"));
+                            classes.push("dimensions".into());
+                        }
+                    }
+                    pixels.push(px);
+                }
+            }
+        }
+        if pixels.len() == 2 {
+            reader_cross_check(c, &label, &pdf, &[&pixels[0], &pixels[1]]);
+        }
+        c.outcome(vx::h64(&classes));
+        if c.want_sample() {
+            c.sample(json!({"images": label, "file_len": pdf.len(), "outcome": classes}));
+        }
+    });
+}
+
+pub fn run(rep: &mut Report) {
+    let thorough = rep.tier.is_thorough();
+    // Every case creates several zlib encoders (~300 KB each). With glibc's defaults each of
+    // them is handed back to the kernel on free (madvise) and faulted in again on the next
+    // case, which costs more than the work itself on 16 threads. Keep freed memory in the arenas.
+    #[cfg(all(target_os = "linux", target_env = "gnu"))]
+    unsafe {
+        libc::mallopt(libc::M_MMAP_THRESHOLD, 32 * 1024 * 1024);
+        libc::mallopt(libc::M_TRIM_THRESHOLD, 512 * 1024 * 1024);
+    }
+    rep.rule("one case = one generated PNG (colour type/bit depth pair, palette and tRNS variant, interlace, size, row-filter \
+              choice, pixel pattern; IDAT split / zlib level / ancillary chunks as bounded deviations) or one raw buffer \
+              (constructor, bit depth, size, pattern) or one ordered pair of images in one document; non-trivial = the library \
+              accepted the input and the written image XObject was compared pixel by pixel (rejected inputs are violations but \
+              not counted as non-trivial); distinct = distinct PNG file / buffer bytes");
+    rep.assume("the `png` crate (0.18) decodes valid PNG files correctly; refpdf::pngenc unit tests show it returns, for every file the encoder writes, the samples that were encoded and the RGBA expansion derived from the PNG specification (the check re-asserts the latter for every case)");
+    rep.assume("image XObject samples are interpreted per ISO 32000-1 §8.9.5 by refpdf (DeviceGray, DeviceRGB, Indexed; /Decode; /SMask, colour-key and stencil /Mask); data beyond width×height×components is ignored");
+    rep.assume("16-bit sources stored with 8 bits per component may use either v>>8 or round(v·255/65535) per sample; colour under a fully transparent pixel is not compared");
+    rep.assume("Image::from_raw_data buffers below 8 bits use the PDF sample layout (rows padded to bytes, most significant bits first)");
+    png_section(rep, thorough);
+    raw_section(rep, thorough);
+    multi_section(rep);
+    if !rep.is_replay() {
+        rep.note("distinct_png_files_embedded_with_correct_pixels", json!(tally::count(tally::PNG_OK)));
+        rep.note("distinct_png_files_rejected_by_the_library", json!(tally::count(tally::PNG_REJECTED)));
+        rep.note("distinct_png_files_embedded_with_wrong_pixels", json!(tally::count(tally::PNG_WRONG)));
+        rep.note("distinct_raw_buffers_embedded_with_correct_pixels", json!(tally::count(tally::RAW_OK)));
+        rep.note("distinct_raw_buffers_embedded_with_wrong_pixels", json!(tally::count(tally::RAW_BAD)));
+    }
+    prof::report();
+}
